@@ -244,4 +244,11 @@ Proof.
   rewrite (ex_up _ _ _ _ (Hf ltac:(destruct e; cbn; auto; lia))) by lia.
   reflexivity.
 Qed.
+
+(* the token rendering determines the tree *)
+Corollary show_injective_lemma e1 e2 : wf e1 -> wf e2 -> show e1 = show e2 -> e1 = e2.
+Proof.
+  intros W1 W2 H. pose proof (parse_show_lemma e1 W1) as P1. pose proof (parse_show_lemma e2 W2) as P2.
+  rewrite H in P1. congruence.
+Qed.
 End F.
